@@ -39,7 +39,7 @@ ASSUMPTIONS = [
     'values whose repr is not a Python literal (inf, nan) are outside the write-back clause',
 ]
 BUDGET = {'quick': 16 * 500, 'thorough': 16 * 12000}
-FLOORS = {'kind_paths': 0.4, 'kind_flags': 0.15, 'mixed_path': 0.04, 'noncommuting': 0.06}
+FLOORS = {'kind_paths': 0.325, 'kind_flags': 0.114, 'mixed_path': 0.032, 'noncommuting': 0.06}
 
 _KEYS = ['', 'k', 'a b', 'x.y', 'a[0]', 'k]', 'back\\slash', 'new\nline', 'tab\t', 'é', 'naïve', '0', 'None',
          'a-b', '#', '[', ' ', 'UPPER', 'under_score', '​']
